@@ -22,7 +22,11 @@ META = {
             'model and specification are run against the real CategoryFilter on generated and exhaustively enumerated rule texts (incl. a sweep of every ASCII character and '
             'non-ASCII look-alikes as would-be separators, and non-ASCII / astral category names handed over as UTF-8 bytes), and the object '
             'model against one real object per rule text on generated histories with adversarial storage of the category names '
-            '(one reused buffer, recycled heap blocks, LogMessage copies).',
+            '(one reused buffer, recycled heap blocks, LogMessage copies). Front end: the body of SimplePipeline::filterCategory is translated '
+            '(src_cat_front) and the filter it yields is proved to answer exactly as CategoryFilter(rules) for every rule text, message, history and '
+            'whatever was requested through the front end before (a front end dropping the rule text or handing out one shared static object is refuted); '
+            'about 30% of the generated filter objects are obtained through SimplePipeline().filterCategory(rules).handler(capture), half of them after an '
+            'earlier request by another pipeline, and must answer as the model of the direct object.',
     'note': 'Trusted: Coq 8.16.1 kernel (vm_compute only for the closed configuration check and the example), no axioms; '
             'tools/s2c/category.py (regex translation of categoryfilter.cpp and of the stringToQtMsgType table), extraction '
             '(ExtrOcamlBasic only) and ocaml/drv_category.ml, harness/h_category.cpp (also offers Qt own QLoggingCategory as a cross-check on the rule subset Qt supports). '
@@ -50,6 +54,52 @@ def unhx(h):
 
 def line_of(case):
     return hx(case[0]) + ' ' + ','.join(hx(c) for c in case[1])
+
+
+# ---- how the application obtained the filter object (round 8).  A case is (rules, categories[, via]); via is the prefix the
+# harness reads in front of the rules field (h_category.cpp, FRONT END): '' = CategoryFilter(rules) constructed directly,
+# 'F:' = SimplePipeline().filterCategory(rules).handler(capture), 'F<hex>:' = the same after another pipeline of the process
+# requested filterCategory(<that text>).  The model and the specification never see it: the front end must be transparent.
+EARLIER = ['*=false', '', '*=true', 'a=false', 'net.*=false;app=true', 'x.debug=false\n*.info=false', '\u0441\u0435\u0442\u044c=false', 'garbage']
+
+
+def via_of(case):
+    return case[2] if len(case) > 2 else ''
+
+
+def via_prefix(earlier=None):
+    return 'F:' if earlier is None else 'F' + hx(earlier) + ':'
+
+
+def via_earlier(via):
+    """None = direct or first request of the process, else the rule text requested earlier"""
+    return unhx(via[1:-1]) if len(via) > 2 else None
+
+
+def via_class(via):
+    return 'constructed_directly' if not via else ('fluent_first_request' if via == 'F:' else 'fluent_after_an_earlier_request')
+
+
+def via_text(via):
+    if not via:
+        return 'CategoryFilter(rules) constructed directly'
+    t = 'SimplePipeline().filterCategory(rules).handler(capture); verdict = whether the trailing handler is reached'
+    e = via_earlier(via)
+    return t if e is None else t + '; before that another pipeline of the process requested filterCategory(%r)' % e
+
+
+def gen_via(rng, other_rules=None):
+    """about 30% of the cases through the fluent front end, half of them after an earlier request"""
+    k = rng.random()
+    if k < 0.70:
+        return ''
+    if k < 0.85:
+        return 'F:'
+    return via_prefix(other_rules if (other_rules is not None and rng.random() < 0.4) else rng.choice(EARLIER))
+
+
+def impl_line(case):
+    return via_of(case) + line_of(case)
 
 
 # ------------------------------------------------------------------------------------ generators
@@ -505,7 +555,7 @@ def py_stats(rules, cat):
 
 # ------------------------------------------------------------------------------------ running
 def run_impl(impl, cases, args=()):
-    rc, out, err = vlib.run_lines(impl, [line_of(c) for c in cases], list(args))
+    rc, out, err = vlib.run_lines(impl, [impl_line(c) for c in cases], list(args))
     return rc, out, err
 
 
@@ -561,8 +611,9 @@ def gen_queries(rng, ncats, qhist=None):
     return qs
 
 
-def seq_line(rules, cats, queries, storage=''):
-    return line_of((rules, cats)) + ' ' + storage + ','.join('%d:%d' % q for q in queries)
+def seq_line(rules, cats, queries, storage='', via=''):
+    """via is given for the implementation only (the model and the oracle read the line without it)"""
+    return via + line_of((rules, cats)) + ' ' + storage + ','.join('%d:%d' % q for q in queries)
 
 
 def split_seq_output(v, storage, n):
@@ -589,7 +640,8 @@ def run():
     chk = vlib.Check('C15')
     chk.trusted = ['Coq 8.16.1 kernel; vm_compute only on the closed terms cfg_goodb src_cfg and the non-vacuity example; no native_compute',
                    'axioms: none (every Print Assumptions: Closed under the global context)',
-                   'tools/s2c/category.py translator (categoryfilter.cpp, categoryfilter.h, logmessage.h -> SrcCategory.v)',
+                   'tools/s2c/category.py translator (categoryfilter.cpp, categoryfilter.h, logmessage.h, body of SimplePipeline::filterCategory in simplepipeline.cpp -> SrcCategory.v)',
+                   'front end: Pipeline::process / SortedPipeline::append / FunctionHandler are modelled (the trailing handler is reached iff the filter passes), not verified',
                    'extraction ExtrOcamlBasic (bool/option/unit/prod/list/sumbool), no Extract Constant; ocaml/drv_category.ml',
                    'harness/h_category.cpp; QRegularExpression/PCRE2, QString::replace/split/fromUtf8 are modelled, not verified']
     chk.assumptions = ['rule text and category are well-formed UTF-16/UTF-8 (no lone surrogates) and the category has no NUL (it is a C string)',
@@ -625,6 +677,13 @@ def run():
     mh = collections.Counter()
     for _ in range(6000 if thorough else 600):
         cases.append(gen_many_stars(rng, mh))
+
+    # how the filter object is obtained: corpus cases as recorded (directly), every other case by gen_via
+    for i in range(n_corpus, len(cases)):
+        other = cases[rng.randrange(n_fixed, len(cases))][0] if len(cases) > n_fixed else None
+        cases[i] = (cases[i][0], cases[i][1], gen_via(rng, other))
+    via_hist = collections.Counter(via_class(via_of(c)) for c in cases)
+    via_hist['distinct_earlier_requests'] = len({via_of(c) for c in cases if via_earlier(via_of(c)) is not None})
 
     rc, out_i, err_i = run_impl(impl, cases)
     if rc != 0 or len(out_i) != len(cases):
@@ -668,7 +727,7 @@ def run():
             if x != y and b != '':
                 dis_model.append((case[0], cat, x, y))
             if '0' in z or len(z) != 5:
-                falsified.append((case[0], cat, x, z, case[1]))
+                falsified.append((case[0], cat, x, z, case[1], via_of(case)))
 
     ph['python_statistics'] = round(_t.time() - t0, 1); t0 = _t.time()
     # generator self-check: the dimensions the fixed legs and the random generator are meant to cover are there
@@ -677,7 +736,9 @@ def run():
                 'random_texts_with_colon': hist['text_with_colon'], 'random_texts_with_non_separator_punctuation': hist['text_with_non_separator_punctuation'],
                 'random_texts_non_ascii': hist['text_non_ascii'], 'random_categories_with_colon': chist['contains_colon'],
                 'random_categories_non_ascii': chist['non_ascii'], 'random_categories_astral': chist['non_ascii_astral'],
-                'random_categories_fragment': chist['fragment_of_a_line_between_non_separators']}
+                'random_categories_fragment': chist['fragment_of_a_line_between_non_separators'],
+                'filters_obtained_through_the_front_end_first_request': via_hist['fluent_first_request'],
+                'filters_obtained_through_the_front_end_after_an_earlier_request': via_hist['fluent_after_an_earlier_request']}
     for k2, n2 in gen_dims.items():
         if not n2:
             chk.broke('generator: dimension %s is empty (the generator has gone constant)' % k2, {'kind': 'generator', 'dimension': k2})
@@ -690,18 +751,18 @@ def run():
                                     for (r, c), a, b in zip(bom_cases, bom_i + [''] * 3, bom_m + [''] * 3)],
                          'note': 'observation only: a category name starting with U+FEFF is outside what the check generates'}
 
-    def judge(rules, cat):
-        """(impl verdicts, oracle marks) of one (rules, category)"""
-        c = (rules, [cat])
+    def judge(rules, cat, via=''):
+        """(impl verdicts, oracle marks) of one (rules, category), the filter obtained as via says"""
+        c = (rules, [cat], via)
         _, o, _ = run_impl(impl, [c])
         v = o[0] if o and well_formed(c, o[0]) else '?????'
         mk = run_oracle(model, [c], [v])
         return v, (mk[0] if mk else '')
 
-    def still_bad(rules, cat):
+    def still_bad(rules, cat, via=''):
         if cat.startswith('\ufeff'):
             return False                # outside the stated domain (leading byte-order mark): never shrink into it
-        v, mk = judge(rules, cat)
+        v, mk = judge(rules, cat, via)
         return '0' in mk
 
     def spec_of(rules, cat):
@@ -742,13 +803,19 @@ def run():
             return 'non_ascii_rules', {}
         return None, {}
 
-    def report(rules, cat, n_before, only_lf=False):
+    def report(rules, cat, n_before, only_lf=False, via=''):
         """shrink one falsified (rules, category), classify it, chk.fail; returns (kind, class)"""
-        pieces = vlib.shrink_list(split_pieces(rules), lambda ps: still_bad(''.join(ps), cat), max_steps=150)
+        if via and still_bad(rules, cat, ''):
+            via = ''                    # the directly constructed filter fails on it as well: not a matter of the front end
+        elif via_earlier(via) is not None and still_bad(rules, cat, 'F:'):
+            via = 'F:'                  # the earlier request is not needed
+        pieces = vlib.shrink_list(split_pieces(rules), lambda ps: still_bad(''.join(ps), cat, via), max_steps=150)
         rules = ''.join(pieces)
-        cat = ''.join(vlib.shrink_list(list(cat), lambda cs: still_bad(rules, ''.join(cs)), max_steps=150))
-        rules = ''.join(vlib.shrink_list(list(rules), lambda rs: still_bad(''.join(rs), cat), max_steps=250))
-        v, mk = judge(rules, cat)
+        cat = ''.join(vlib.shrink_list(list(cat), lambda cs: still_bad(rules, ''.join(cs), via), max_steps=150))
+        rules = ''.join(vlib.shrink_list(list(rules), lambda rs: still_bad(''.join(rs), cat, via), max_steps=250))
+        if via_earlier(via) is not None:
+            via = via_prefix(''.join(vlib.shrink_list(list(via_earlier(via)), lambda es: still_bad(rules, cat, via_prefix(''.join(es))), max_steps=80)))
+        v, mk = judge(rules, cat, via)
         c = (rules, [cat])
         spec = run_model(model, [c], 'spec')[0]
         legacy = (run_model(model, [c], 'legacy', timeout=30) or ['?'])[0]
@@ -758,17 +825,31 @@ def run():
                'types_order': 'debug warning critical fatal info',
                'rules_as_parsed_by_the_specification': run_model(model, [c], 'srules')[0],
                'wildcards_in_the_rule_text': rules.count('*'), 'category_length': len(cat),
-               'falsified_cases_before_shrinking': n_before}
+               'falsified_cases_before_shrinking': n_before,
+               'filter_obtained_via': via, 'filter_obtained_by': via_text(via)}
+        if via:
+            direct_v = judge(rules, cat, '')[0]
+            rep['directly_constructed_filter_verdicts'] = direct_v
+            if via_earlier(via) is not None:
+                rep['earlier_front_end_request'] = via_earlier(via)
+                rep['same_request_as_the_first_of_the_process'] = judge(rules, cat, 'F:')[0]
         kind, cls = 'verdict', None
         lf_free = cat.replace('\n', '\ue000')
-        if '\n' in cat and v == legacy and v != spec and not still_bad(rules, lf_free):
+        if via:
+            # the directly constructed filter answers this input as specified (checked at the top): the defect is in the front end
+            cls = 'front_end_depends_on_earlier_request' if via_earlier(via) is not None else 'front_end'
+            rep['class'] = cls
+            rep['explanation'] = ('CategoryFilter(rules) constructed directly answers as specified; the filter obtained through '
+                                  'SimplePipeline::filterCategory(rules) does not' + (' when another pipeline requested a filter before'
+                                                                                     if via_earlier(via) is not None else ''))
+        elif '\n' in cat and v == legacy and v != spec and not still_bad(rules, lf_free):
             # the implementation behaves like "^...$" without DotMatchesEverything on this input and is right once the
             # line feeds are replaced by another character
             kind = 'lf_in_category'
             cls = ('dollar_before_final_lf' if cat.endswith('\n') and run_model(model, [(rules, [cat[:-1]])], 'spec')[0] == v
                    else 'dot_excludes_lf')
             rep['class'] = cls
-        if kind == 'verdict' and v != spec:
+        if kind == 'verdict' and v != spec and not via:
             cls, more = explain(rules, cat, v, spec)
             if cls:
                 rep['class'] = cls
@@ -776,8 +857,12 @@ def run():
         rep['kind'] = kind
         if only_lf and kind != 'lf_in_category':
             return kind, cls        # the same non-LF defect was already reported on an LF-free category
-        chk.fail('CategoryFilter(%r) gives %s for category %r, type %s; ordered rule evaluation prescribes %s'
-                 % (rules, 'pass' if v[ti:ti + 1] == '1' else 'drop', cat, TYPES[ti], 'pass' if spec[ti:ti + 1] == '1' else 'drop'),
+        who = 'CategoryFilter(%r)' % rules if not via else (
+            'SimplePipeline().filterCategory(%r)%s' % (rules, '' if via_earlier(via) is None else
+                                                     ' (after another pipeline requested filterCategory(%r))' % via_earlier(via)))
+        chk.fail('%s gives %s for category %r, type %s; ordered rule evaluation prescribes %s%s'
+                 % (who, 'pass' if v[ti:ti + 1] == '1' else 'drop', cat, TYPES[ti], 'pass' if spec[ti:ti + 1] == '1' else 'drop',
+                    '; the directly constructed CategoryFilter answers as specified' if via else ''),
                  rep, kind=kind)
         return kind, cls
 
@@ -788,13 +873,16 @@ def run():
     if falsified:
         size = lambda f: (len(split_pieces(f[0])), len(f[0]) + len(f[1]))
         falsified = [f for f in sorted(falsified, key=size)]
-        in_isolation = lambda fs: next((f for f in fs[:6] if still_bad(f[0], f[1])), None)
+        # candidates: the smallest ones, and the smallest whose filter came through the front end after an in-line earlier request
+        # (a front end handing out a shared object fails on 'F:' lines of the batch only because of EARLIER LINES of the process)
+        in_isolation = lambda fs: next((f for f in fs[:6] + [g for g in fs if via_earlier(g[5]) is not None][:6]
+                                        if still_bad(f[0], f[1], f[5])), None)
         plain = [f for f in falsified if '\n' not in f[1]]
         with_lf = [f for f in falsified if '\n' in f[1]]
         seen = set()
         f = in_isolation(plain)
         if f:                           # a failure that has nothing to do with LF is reported first
-            seen.add(report(f[0], f[1], len(falsified)))
+            seen.add(report(f[0], f[1], len(falsified), via=f[5]))
             confirmed += 1
         # categories with LF: the two faces of the "^...$" defect are reported separately; anything else as 'verdict'
         final_lf = [f for f in with_lf if f[1].endswith('\n')]
@@ -802,7 +890,7 @@ def run():
         for group in (final_lf, inner_lf):
             f = in_isolation(group)
             if f:
-                k, _ = report(f[0], f[1], len(falsified), only_lf=bool(confirmed))
+                k, _ = report(f[0], f[1], len(falsified), only_lf=bool(confirmed), via=f[5])
                 seen.add(k)
                 confirmed += (k == 'lf_in_category' or not confirmed)
     if dis_model:
@@ -824,7 +912,12 @@ def run():
     seqs = [h[1] for h in corpus_h] + seqs
     stor = [h[2] for h in corpus_h] + stor
     slines = [seq_line(c[0], c[1], q, st) for c, q, st in zip(seq_cases, seqs, stor)]
-    rcs, out_s, err_s = vlib.run_lines(impl, slines)
+    slines_i = [via_of(c) + l for c, l in zip(seq_cases, slines)]     # the implementation's line says how the object is obtained
+    seq_via_hist = collections.Counter(via_class(via_of(c)) for c in seq_cases)
+    for k2 in ('fluent_first_request', 'fluent_after_an_earlier_request'):
+        if not seq_via_hist[k2]:
+            chk.broke('history generator: no filter object obtained through the front end (%s)' % k2, {'kind': 'generator', 'dimension': k2})
+    rcs, out_s, err_s = vlib.run_lines(impl, slines_i)
     out_s = out_s + [''] * (len(slines) - len(out_s))
     split = [split_seq_output(v, st, len(q)) for v, st, q in zip(out_s, stor, seqs)]
     out_s, flags_s = [a for a, _ in split], [b for _, b in split]
@@ -843,7 +936,7 @@ def run():
                 seq_inconsistent += 1
         bad = len(mk) != len(q) or '0' in mk
         if bad:
-            seq_bad.append((c[0], c[1], q, st))
+            seq_bad.append((c[0], c[1], q, st, via_of(c)))
         if (wh == '1') == bad:             # prop_c15_seq_b must be the conjunction of the per-message marks (C15_history_oracle_pointwise)
             oracle_mismatch += 1
         if mo != v and mo != '':
@@ -869,11 +962,11 @@ def run():
             chk.broke('history generator: no consecutive same-type messages with different specified verdicts at one address under storage %s '
                       '(the allocator did not recycle the block, or the generator has gone constant)' % STORAGE_NAME[stn], {'kind': 'generator', 'storage': stn})
 
-    def seq_judge(rules, cats, queries, storage=''):
+    def seq_judge(rules, cats, queries, storage='', via=''):
         if not queries:
             return '', ''
         l = seq_line(rules, cats, queries, storage)
-        o = vlib.run_lines(impl, [l])[1]
+        o = vlib.run_lines(impl, [via + l])[1]
         v = split_seq_output(o[0] if o else '', storage, len(queries))[0]
         mk = vlib.run_lines(model, [l + ' ' + v], ['oracle'])[1]
         return v, (mk[0].partition(' ')[0] if mk else '')
@@ -882,15 +975,18 @@ def run():
         # the fixed-order pass found nothing: the failure needs a particular history / storage of the names
         # the reused-buffer storages first: they do not depend on what the allocator does, so the replay is deterministic
         order = lambda f: (f[3] in ('H/', 'C/'), len(f[2]), len(f[0]))
-        rules, cats, queries, storage = min(seq_bad, key=order)
-        bad = lambda r, cs, qs: '0' in seq_judge(r, cs, qs, storage)[1]
+        rules, cats, queries, storage, via = min(seq_bad, key=order)
+        bad = lambda r, cs, qs: '0' in seq_judge(r, cs, qs, storage, via)[1]
         if not bad(rules, cats, queries):
-            # not reproducible in isolation (the heap modes depend on the allocator): try the other failing histories
-            for cand in sorted(seq_bad, key=order)[:40]:
-                storage = cand[3]
+            # not reproducible in isolation (the heap modes depend on the allocator, a shared front-end object on the earlier
+            # lines of the process): try the other failing histories
+            for cand in sorted(seq_bad, key=order)[:40] + sorted([g for g in seq_bad if via_earlier(g[4]) is not None], key=order)[:10]:
+                storage, via = cand[3], cand[4]
                 if bad(cand[0], cand[1], cand[2]):
                     rules, cats, queries = cand[0], cand[1], cand[2]
                     break
+        if via and '0' in seq_judge(rules, cats, queries, storage, '')[1]:
+            via = ''                    # the directly constructed object fails as well: not a matter of the front end
         queries = vlib.shrink_list(queries, lambda qs: bad(rules, cats, qs), max_steps=200)
         used = sorted({ci for ci, _ in queries})
         cats = [cats[ci] for ci in used]
@@ -899,11 +995,11 @@ def run():
         rules = ''.join(vlib.shrink_list(list(rules), lambda rs: bad(''.join(rs), cats, queries), max_steps=200))
         for i in range(len(cats)):
             cats[i] = ''.join(vlib.shrink_list(list(cats[i]), lambda cs: bad(rules, cats[:i] + [''.join(cs)] + cats[i + 1:], queries), max_steps=80))
-        v, mk = seq_judge(rules, cats, queries, storage)
+        v, mk = seq_judge(rules, cats, queries, storage, via)
         k = mk.index('0') if '0' in mk else len(queries) - 1
         ci, ti = queries[k]
-        alone_v, alone_mk = seq_judge(rules, cats, [queries[k]], storage)
-        plain_v, plain_mk = seq_judge(rules, cats, queries, '')
+        alone_v, alone_mk = seq_judge(rules, cats, [queries[k]], storage, via)
+        plain_v, plain_mk = seq_judge(rules, cats, queries, '', via)
         kind = 'order_dependent' if alone_mk == '1' else 'verdict'
         spec_seq = vlib.run_lines(model, [seq_line(rules, cats, queries, storage)], ['spec'])[1]
         rep = {'kind': kind, 'rules': rules, 'categories': cats, 'rules_hex_utf16': hx(rules),
@@ -911,11 +1007,16 @@ def run():
                                   for n, (a, b) in enumerate(queries)],
                'queries': ['%d:%d' % q for q in queries], 'failing_query_index': k,
                'storage': storage, 'category_names_stored_in': STORAGE_NAME[storage],
-               'same_query_on_a_fresh_object': alone_v, 'histories_with_a_falsified_answer': len(seq_bad)}
+               'same_query_on_a_fresh_object': alone_v, 'histories_with_a_falsified_answer': len(seq_bad),
+               'filter_obtained_via': via, 'filter_obtained_by': via_text(via)}
         where = ''
+        if via:
+            rep['same_history_on_a_directly_constructed_filter'] = seq_judge(rules, cats, queries, storage, '')[0]
+            rep['class'] = 'front_end_depends_on_earlier_request' if via_earlier(via) is not None else 'front_end'
+            where = ' (the object was obtained through the front end: %s; the directly constructed filter answers the same history as specified)' % via_text(via)
         if storage:
             rep['same_history_with_every_name_at_its_own_address'] = plain_v
-            if kind == 'order_dependent' and '0' not in plain_mk:
+            if kind == 'order_dependent' and '0' not in plain_mk and not via:
                 rep['class'] = 'address_reuse'
                 where = ' (the category names of consecutive messages share one address: %s; with every name at its own address the same history is answered as specified)' % STORAGE_NAME[storage]
         chk.fail('one CategoryFilter(%r) object: query #%d (category %r, type %s) is answered %s after the earlier queries, %s on a fresh object; '
@@ -926,7 +1027,7 @@ def run():
         # falsified in the batch run, not by a fresh object per category, and the generated histories are all answered as specified:
         # report the batch line itself (one object asked about its categories in order, five types each)
         f = falsified[0]
-        c = (f[0], f[4])
+        c = (f[0], f[4], f[5])
         _, o, _ = run_impl(impl, [c])
         v = o[0] if o and well_formed(c, o[0]) else ','.join('?????' for _ in c[1])
         mk = run_oracle(model, [c], [v])
@@ -939,7 +1040,7 @@ def run():
             chk.broke('%d answers of the batch run were not as specified but neither a fresh object nor a re-run of the line repeats them' % len(falsified),
                       {'kind': 'unreproducible', 'rules': c[0], 'categories': c[1]})
     if seq_dis and not seq_bad and not falsified:
-        r, cs, q, st, v, mo = min(seq_dis, key=lambda f: (len(f[2]), len(f[0])))
+        r, cs, q, st, v, mo = min(seq_dis, key=lambda f: (len(f[2]), len(f[0])))[:6]
         chk.broke('correspondence: object model (object_answers src_cfg) and one CategoryFilter object differ on %d histories' % len(seq_dis),
                   {'kind': 'correspondence', 'rules': r, 'categories': cs, 'queries': ['%d:%d' % x for x in q], 'storage': st,
                    'implementation_verdicts': v, 'model_verdicts': mo})
@@ -989,7 +1090,7 @@ def run():
                     # the histories with adversarial name storage as well (a memo that keeps a dangling name pointer and
                     # reads through it is a use-after-free only the sanitizer build sees)
                     nseq = min(len(slines), 6000)
-                    rc3, o3, e3 = vlib.run_lines(exe, slines[:nseq])
+                    rc3, o3, e3 = vlib.run_lines(exe, slines_i[:nseq])
                     o3 = o3 + [''] * (nseq - len(o3))
                     d3 = [i for i in range(nseq) if split_seq_output(o3[i], stor[i], len(seqs[i]))[0] != out_s[i]]
                     extra['variant_%s_history_differences' % variant] = len(d3)
@@ -1009,6 +1110,12 @@ def run():
                             'categories (instantiated from the patterns, perturbed, pieces of a line between non-separators, pool, empty, default, very long, with LF) x 5 types; '
                             'non-trivial = distinct (rules, category) where at least one type is blocked' % (3 if thorough else 2),
                     'corpus_cases': n_corpus, 'fixed_cases': n_fixed,
+                    'filter_object_obtained_via': {'rule_texts': dict(via_hist), 'history_objects': dict(seq_via_hist),
+                                                   'rule': 'every non-corpus case: 70% CategoryFilter(rules) constructed directly, 15% SimplePipeline().filterCategory(rules)'
+                                                           '.handler(capture) as the first front-end request of the line, 15% the same after another pipeline requested '
+                                                           'filterCategory(<earlier text>) (a fixed pool or the rule text of another case); verdict of a fluent object = '
+                                                           'whether the trailing handler is reached; expected answers are those of the model of the direct object '
+                                                           '(C15_front_end_is_transparent)'},
                     'separators_and_alphabets': dict(gen_dims, rule='separator sweep: for every code point 1..0x7F and %d non-ASCII look-alikes of separators / line ends / '
                                                      'blanks c: the texts x<c>y=false, *=false;junk<c>y=true, x=true<c>y=false, x<c>y.debug=false<c>y.info=false x the '
                                                      'categories x<c>y, y, x, xy, x<c>, <c>y, x<c><c>y; non-ASCII names: %d names (2/3/4-byte UTF-8, boundary code points, '
@@ -1038,7 +1145,8 @@ def run():
                     'rule_generator_histogram': dict(hist), 'category_generator_histogram': dict(chist)})
     chk.cov.update(extra)
     idx = [n_fixed + 1, n_fixed + 2, len(cases) // 2]
-    chk.samples = [{'rules': cases[i][0], 'categories': cases[i][1], 'impl': out_i[i], 'model': out_m[i]} for i in idx if i < len(cases)]
+    chk.samples = [{'rules': cases[i][0], 'categories': cases[i][1], 'filter_obtained_by': via_text(via_of(cases[i])), 'impl': out_i[i], 'model': out_m[i]}
+                   for i in idx if i < len(cases)]
     return chk.finish()
 
 
@@ -1052,20 +1160,26 @@ def replay(path):
     cats = [cat] if cat is not None else r.get('categories', [''])
     vlib.gen_src(['category'])
     model = vlib.build_model('category'); impl = vlib.build_harness('category')
-    c = (rules, cats)
+    via = r.get('filter_obtained_via', '')
+    c = (rules, cats, via)
+    print('filter object    %s' % via_text(via))
     if r.get('queries'):
         l = line_of(c) + ' ' + r.get('storage', '') + ','.join(r['queries'])
         print('rules            %r' % rules)
         print('categories       %r' % cats)
         print('category names stored in: %s' % STORAGE_NAME.get(r.get('storage', ''), '?'))
         print('queries (category index:type index, types debug warning critical fatal info)', ' '.join(r['queries']))
-        print('implementation (one object, this order)  ', vlib.run_lines(impl, [l])[1])
+        print('implementation (one object, this order)  ', vlib.run_lines(impl, [via + l])[1])
+        if via:
+            print('implementation, filter constructed directly', vlib.run_lines(impl, [l])[1])
         print('model / specification (order-independent)', vlib.run_lines(model, [l])[1], vlib.run_lines(model, [l], ['spec'])[1])
         return 0
     print('rules            %r' % rules)
     print('categories       %r' % cats)
     print('types            debug warning critical fatal info')
     print('implementation  ', run_impl(impl, [c])[1])
+    if via:
+        print('impl., direct   ', run_impl(impl, [(rules, cats)])[1], '  (CategoryFilter(rules) constructed directly)')
     print('model           ', run_model(model, [c]))
     print('specification   ', run_model(model, [c], 'spec'))
     print('parsed rules    ', run_model(model, [c], 'srules'))
